@@ -511,7 +511,7 @@ impl Gen {
                 90..=91 => { if !clusters.is_empty() && rng.chance(1, 3) { return format!("remove_cluster {}", rng.pick(&clusters)); } }
                 92..=93 => { if !free.is_empty() { return format!("remove_proxy {}", rng.pick(&free)); } else if !proxies.is_empty() { return format!("remove_proxy {}", rng.pick(&proxies)); } }
                 94..=96 => { if !proxies.is_empty() { let a = if rng.chance(3, 4) && !free.is_empty() { rng.pick(&free).clone() } else { rng.pick(&proxies).clone() }; return format!("add_failure {} r{} 0", a, rng.below(3)); } }
-                97 => { return format!("bump_all {}", store.global_epoch as i64 + rng.range(-2, 20)); }
+                97 => { return format!("bump_all {}", (store.global_epoch as i64 + rng.range(-2, 20)).max(0)); }
                 98 => { return format!("recover {}", (store.global_epoch as i64 + rng.range(-5, 50)).max(0)); }
                 _ => { if !clusters.is_empty() { return format!("scale_out_num {} {}", rng.pick(&clusters), 4 * rng.range(1, 6)); } }
             }
